@@ -12,7 +12,8 @@ enumerated on the real generator:
  (b) clock                 - the names `datetime`/`time` seen by nunavut.jinja and gzip are explorer controlled:
                              {epoch, 2024, 2024+1s, 9999}
  (c) cwd x path spelling   - {/, input parent, output dir} x {absolute, relative to cwd}
- (d) absolute location     - {A, B}: different depth and length, same relative layout
+ (d) absolute location     - {A, B}: different depth and length, same relative layout; C: the directories above the inputs
+                             are named like the root namespace(s); D: only the output directory has such ancestors
  (e) process + hash seed   - separate interpreter per PYTHONHASHSEED in {0,1,2,3}, real CLI entry point, real sets
                              (guards the set literals / comprehensions the injected name cannot reach, listed below)
  x target {c, cpp c++14/c++17/c++17-pmr/cetl++14-17, py, html} x serialization support {on, off}.
@@ -116,7 +117,7 @@ LANGS: typing.Dict[str, typing.Tuple[str, typing.Optional[dict]]] = {
 CLOCKS = ["2024", "epoch", "2024+1s", "9999"]
 CWDS = ["root", "in", "out"]  # '/', the parent of the root namespace directory, the output directory
 SPELL = ["abs", "rel"]
-LOCS = ["A", "B"]
+LOCS = ["A", "B", "C", "D"]
 REF_AMBIENT = ("2024", "root", "abs", "A")
 AMBIENT_DIMS = ("clock", "cwd", "path_spelling", "location")
 SEEDS = [0, 1, 2, 3]
@@ -166,17 +167,31 @@ class Run(typing.NamedTuple):
 
 
 class Locations:
-    """The two absolute locations (same relative layout: in/<root>, lookup/<root2>, out)."""
+    """
+    The absolute locations (relative layout: in/<root>, lookup/<root2>, out):
+      A  short;  B  deeper and longer;
+      C  the directories ABOVE the inputs are named like the root namespace(s) (a checkout such as
+         ~/x/public_types/in/x/...): cutting a path at the outermost directory called like the namespace goes wrong;
+      D  only the OUTPUT directory has ancestors named like the namespace(s).
+    """
 
-    def __init__(self, base: pathlib.Path) -> None:
+    def __init__(self, base: pathlib.Path, names: typing.Sequence[str] = ("x", "z")) -> None:
         self.base = base
+        like_ns = pathlib.PurePath(*names)
         self.roots = {
             "A": base / "A",
             "B": base / "Bb" / "deeper" / "a_location_with_a_considerably_longer_name",
+            "C": base / "Cw" / like_ns / "public_types",
+            "D": base / "Dd",
         }
+        self.outs = {k: v / "out" for k, v in self.roots.items()}
+        self.outs["D"] = self.roots["D"] / like_ns / "out"
 
     def materialize(self, nsdef: dict) -> None:
-        for root in self.roots.values():
+        names = [nsdef["root"]] + sorted(nsdef.get("lookup", {}))
+        if any(n not in self.roots["C"].parts or n not in self.outs["D"].parts for n in names):
+            raise HarnessError(f"locations C/D do not contain directories named {names}")
+        for loc, root in self.roots.items():
             shutil.rmtree(root, ignore_errors=True)
             for rel, text in nsdef["files"].items():
                 p = root / "in" / rel
@@ -187,11 +202,11 @@ class Locations:
                     p = root / "lookup" / rel
                     p.parent.mkdir(parents=True, exist_ok=True)
                     p.write_text(text, encoding="utf-8")
-            (root / "out").mkdir(parents=True, exist_ok=True)
+            self.outs[loc].mkdir(parents=True, exist_ok=True)
 
     def scrub(self, s: str) -> str:
-        for name in ("B", "A"):
-            s = s.replace(str(self.roots[name]), f"<loc{name}>")
+        for name in ("D", "C", "B", "A"):
+            s = s.replace(str(self.outs[name]), f"<out{name}>").replace(str(self.roots[name]), f"<loc{name}>")
         return s.replace(str(self.base), "<scratch>")
 
 
@@ -218,7 +233,7 @@ def execute(
     lang, options = LANGS[lang_id]
     clock, cwd_name, spelling, loc = ambient
     root = locs.roots[loc]
-    out = root / "out"
+    out = locs.outs[loc]
     shutil.rmtree(out, ignore_errors=True)
     out.mkdir(parents=True)
     cwd = {"root": pathlib.Path("/"), "in": root / "in", "out": out}[cwd_name]
@@ -330,7 +345,7 @@ def _blob_causes(a: bytes, b: bytes) -> typing.Set[str]:
 
 def _norm(line: str, locs: Locations) -> str:
     s = locs.scrub(line.strip())
-    s = re.sub(r"<(locA|locB|scratch)>[^\s\"']*", "<path>", s)
+    s = re.sub(r"<(loc[A-D]|out[A-D]|scratch)>[^\s\"']*", "<path>", s)
     s = re.sub(r"\d+", "#", s)
     return s[:60]
 
@@ -359,7 +374,7 @@ def _line_cause(la: typing.List[str], i: int, x: str, y: str, locs: Locations) -
         ctx_lines = " ".join(la[max(0, i - 2) : i + 1])
         if "static_assert" in ctx_lines:
             return "abs_source_path_in_static_assert"
-        if "Source file" in ctx_lines:
+        if "Source file" in x:
             return "source_path_in_header_comment"
         return "path_in_text:" + _norm(x, locs)
     if x.lstrip().startswith("#include") and y.lstrip().startswith("#include"):
@@ -626,17 +641,24 @@ def run(ctx: Ctx) -> int:
     core = [c for c in cfgs if c in CORE_CFGS]
     if len(core) != len(CORE_CFGS):
         raise HarnessError("core configuration list names unknown configurations")
-    all_tuples = [t for t in itertools.product(CLOCKS, CWDS, SPELL, LOCS) if t != REF_AMBIENT]
+    # thorough space per configuration: the full product over locations A/B, and every cwd x spelling at the two
+    # locations whose directories are named like the namespace (the clock is independent of where the files are)
+    all_tuples = [t for t in itertools.product(CLOCKS, CWDS, SPELL, ["A", "B"]) if t != REF_AMBIENT]
+    all_tuples += list(itertools.product([REF_AMBIENT[0]], CWDS, SPELL, ["C", "D"]))
+    # quick, core configurations: every clock value alone + every cwd x spelling x location at the reference clock
+    core_tuples = [t for t in all_tuples if t[0] == REF_AMBIENT[0] or t[1:] == REF_AMBIENT[1:]]
 
     # ---- phase 1: ambient tuples (and the default trace of every configuration)
     jobs = []
     ambient_space = 0
     for cfg in cfgs:
         ambient_space += len(all_tuples)
-        if cfg in core or ctx.thorough:
+        if ctx.thorough:
             tuples = all_tuples
-        else:
-            tuples = [t for t in all_tuples if ctx.in_slice(cfg_id(cfg) + "|ambient|" + "/".join(t))]
+        elif cfg in core:
+            tuples = core_tuples
+        else:  # the seed selects whole configurations (a tuple needs its neighbours to be attributed)
+            tuples = all_tuples if ctx.in_slice(cfg_id(cfg) + "|ambient") else []
         jobs.append({"cfg": cfg, "tuples": tuples, "scratch": scratch})
     jobs.sort(key=lambda j: -len(j["tuples"]))  # long jobs first (stable, deterministic)
     res1 = ctx.pool_map(_ambient_job, jobs)
@@ -771,6 +793,8 @@ def run(ctx: Ctx) -> int:
         {"cfg": cfg_id(ex_cfg), "schedule": [[1, ex_trace[1][1], 5]] if len(ex_trace) > 1 else [], "ambient": list(REF_AMBIENT)},
         {"cfg": cfg_id(core[2]), "ambient_a": list(REF_AMBIENT), "ambient_b": ["2024+1s", "root", "abs", "A"]},
         {"cfg": cfg_id(core[4]), "ambient_a": list(REF_AMBIENT), "ambient_b": ["2024", "in", "rel", "B"]},
+        {"cfg": cfg_id(core[0]), "ambient_a": list(REF_AMBIENT), "ambient_b": ["2024", "root", "abs", "C"],
+         "location_C": "<scratch>/Cw/x/z/public_types/in/x/...", "output_D": "<scratch>/Dd/x/z/out"},
         {"cfg": cfg_id(core[1]), "hashseed": [0, 3], "argv": cli_args(core[1], pathlib.Path("<A>"))},
     ]
     nontrivial = ambient_run + one_dev_run + two_dev_run + (seed_runs - len(res4))
